@@ -82,7 +82,7 @@ fn fresh_backend<B: Backend>(opts: &Opts, fr: &mut Fresh) {
     let fail = |rep: &mut Report, class: &str, e: &PasetoError| rep.violation(&format!("C16|{class}|operation-failed:{}", err_kind(e)), json!({"class": class}));
 
     // local tokens: the embedded nonce
-    let n = shard_share(opts.size(5000, 100_000));
+    let n = shard_share(opts.size(20_000, 100_000));
     let mut prev = None;
     let class = format!("{}.local.nonce", B::NAME);
     for i in 0..n {
